@@ -129,27 +129,32 @@ type l2conn struct {
 }
 
 type l2world struct {
-	px      *s3proxy
-	bucket  string
-	prefix  string
-	ncols   int
-	epn     int
-	cache   int
-	keyType string
-	conns   map[int]*l2conn
-	nm      *namer
-	in, out *tw
-	ops     *tw
-	nops    int
-	native  bool // maintain a native twin table per connection
-	dead    bool // a Go panic crossed the cgo boundary: SQLite's mutex is held, the process state is unusable
+	px       *s3proxy
+	bucket   string
+	prefix   string
+	ncols    int
+	epn      int
+	cache    int
+	keyType  string
+	conns    map[int]*l2conn
+	nm       *namer
+	in, out  *tw
+	ops      *tw
+	nops     int
+	native   bool // maintain a native twin table per connection
+	writes   []pastWrite
+	curWT    map[int]int64
+	versions [][]string // canonical version lists returned by s3db_version so far
+	roMuts   int
+	lastMuts int
+	dead     bool // a Go panic crossed the cgo boundary: SQLite's mutex is held, the process state is unusable
 }
 
 func newL2World(ncols, epn, cache int, native bool) *l2world {
 	px := getProxy()
 	l2counter++
 	w := &l2world{px: px, bucket: fmt.Sprintf("b%d", l2counter), prefix: "pfx", ncols: ncols, epn: epn, cache: cache,
-		conns: map[int]*l2conn{}, nm: newNamer("#"), in: &tw{}, out: &tw{}, ops: &tw{}, native: native}
+		conns: map[int]*l2conn{}, curWT: map[int]int64{}, nm: newNamer("#"), in: &tw{}, out: &tw{}, ops: &tw{}, native: native}
 	if err := px.backend.CreateBucket(w.bucket); err != nil {
 		panic(err)
 	}
@@ -208,6 +213,7 @@ func (w *l2world) mutsG(out *tw, opn, cls string) (getOrder, retire []string, nm
 			continue
 		}
 		nmut++
+		w.lastMuts++
 		if cl == "n" {
 			continue // node-level requests are not compared at this level
 		}
@@ -218,6 +224,13 @@ func (w *l2world) mutsG(out *tw, opn, cls string) (getOrder, retire []string, nm
 	}
 	out.s(cls)
 	return
+}
+
+func (w *l2world) canonNames(out *tw, l []string) {
+	out.i(len(l))
+	for _, n := range l {
+		out.s(n)
+	}
 }
 
 func (w *l2world) names(out *tw, l []string) {
@@ -317,6 +330,11 @@ func (w *l2world) rowsOut(out *tw, rows [][]sval) {
 	}
 }
 
+type pastWrite struct {
+	op *sop
+	t  int64
+}
+
 type sop struct {
 	kind   string
 	c      int
@@ -329,8 +347,8 @@ type sop struct {
 	cons   []scon
 	limit  int
 	before int64
-	from   string // canonical version-list tokens for changes
-	to     string
+	from   []string // canonical version names for changes
+	to     []string
 }
 type scon struct {
 	op string // eq lt le ge gt
@@ -425,6 +443,7 @@ func (w *l2world) exec(op *sop, stats map[string]int) bool {
 		o.s("wt")
 		o.i(op.c)
 		o.z(op.t)
+		w.curWT[op.c] = op.t
 	case "ins":
 		ph := "?"
 		args := []interface{}{op.key.goValue()}
@@ -450,6 +469,10 @@ func (w *l2world) exec(op *sop, stats map[string]int) bool {
 		}
 		w.names(&o, retire)
 		stats["ins_"+r]++
+		if r == "ok" {
+			cp := *op
+			w.writes = append(w.writes, pastWrite{&cp, w.curWT[op.c]})
+		}
 	case "upd":
 		var sets []string
 		var args []interface{}
@@ -483,6 +506,10 @@ func (w *l2world) exec(op *sop, stats map[string]int) bool {
 		}
 		w.names(&o, retire)
 		stats["upd_"+r]++
+		if r == "ok" {
+			cp := *op
+			w.writes = append(w.writes, pastWrite{&cp, w.curWT[op.c]})
+		}
 	case "del":
 		r, nat := w.execBoth(c, "delete from @T where k=?", op.key.goValue())
 		out.s(";")
@@ -498,6 +525,10 @@ func (w *l2world) exec(op *sop, stats map[string]int) bool {
 		o.sval(op.key)
 		w.names(&o, retire)
 		stats["del_"+r]++
+		if r == "ok" {
+			cp := *op
+			w.writes = append(w.writes, pastWrite{&cp, w.curWT[op.c]})
+		}
 	case "sel":
 		q := "select * from @T"
 		var args []interface{}
@@ -574,6 +605,98 @@ func (w *l2world) exec(op *sop, stats map[string]int) bool {
 			o.sval(cn.v)
 		}
 		o.i(op.limit)
+	case "rdconn":
+		var dl, wt sql.NullString
+		err := c.db.QueryRow("select deadline, write_time from s3db_conn").Scan(&dl, &wt)
+		out.s(";")
+		if err != nil {
+			out.s("err")
+		} else {
+			out.s("ok")
+			for _, v := range []sql.NullString{dl, wt} {
+				if !v.Valid {
+					out.s("N")
+					continue
+				}
+				t, perr := time.Parse("2006-01-02 15:04:05", v.String)
+				switch {
+				case perr != nil:
+					out.s("?")
+				case t.Unix() >= l2BaseSec-100000 && t.Unix() <= l2BaseSec+100000 || t.Unix() == 4102444800:
+					out.z(t.Unix())
+				default:
+					out.s("A") // the automatic transaction time (wall clock)
+				}
+			}
+		}
+		o.s("rdconn")
+		o.i(op.c)
+	case "dl":
+		var err error
+		if op.t == 0 {
+			_, err = c.db.Exec("update s3db_conn set deadline=NULL")
+		} else {
+			_, err = c.db.Exec("update s3db_conn set deadline=?", fmtTime(op.t))
+		}
+		out.s(";")
+		out.s(classifyErr(err))
+		o.s("dl")
+		o.i(op.c)
+		o.z(op.t)
+	case "changes":
+		l2counter++
+		ch := fmt.Sprintf("ch%d", l2counter)
+		args := fmt.Sprintf("table='%s'", c.table)
+		toJSON := func(canon []string) string {
+			raw := make([]string, 0, len(canon))
+			for _, cn := range canon {
+				for r, i := range w.nm.m {
+					if "#"+strconv.Itoa(i) == cn {
+						raw = append(raw, r)
+					}
+				}
+			}
+			b, _ := json.Marshal(raw)
+			return string(b)
+		}
+		args += fmt.Sprintf(", from='%s', to='%s'", toJSON(op.from), toJSON(op.to))
+		_, err := c.db.Exec(fmt.Sprintf("create virtual table %s using s3db_changes(%s)", ch, args))
+		out.s(";")
+		if err != nil {
+			out.s("err")
+			classifyErr(err)
+		} else {
+			done := make(chan struct{})
+			var got [][]sval
+			var qerr error
+			go func() {
+				defer close(done)
+				rows, err := c.db.Query("select * from " + ch)
+				if err == nil {
+					got, err = scanRows(rows)
+				}
+				qerr = err
+			}()
+			select {
+			case <-done:
+				if qerr != nil {
+					out.s("qerr")
+					classifyErr(qerr)
+				} else {
+					out.s("ok")
+					w.rowsOut(out, got)
+				}
+				c.db.Exec("drop table " + ch)
+			case <-time.After(20 * time.Second):
+				out.s("hang")
+				w.dead = true
+			}
+		}
+		o.s("changes")
+		o.i(op.c)
+		w.canonNames(&o, op.from)
+		w.canonNames(&o, op.to)
+		stats["changes"]++
 	case "begin", "commit", "rollback":
 		_, err := c.db.Exec(op.kind)
 		if op.kind == "begin" && err == nil {
@@ -616,6 +739,11 @@ func (w *l2world) exec(op *sop, stats map[string]int) bool {
 			out.s("{")
 			w.names(out, l)
 			out.s("}")
+			cl := []string{}
+			for _, n := range l {
+				cl = append(cl, w.nm.nm(n))
+			}
+			w.versions = append(w.versions, cl)
 		}
 		o.s("version")
 		o.i(op.c)
@@ -637,6 +765,37 @@ func (w *l2world) exec(op *sop, stats map[string]int) bool {
 			return t.String(), true
 		}
 		vb, _ := selAll(c.db, c.table)
+		freshRead := func() (string, []string) {
+			fdb, ferr := sql.Open("sqlite3", ":memory:")
+			vf := " err"
+			var forder []string
+			if ferr == nil {
+				fdb.SetMaxOpenConns(1)
+				l2counter++
+				ft := fmt.Sprintf("t%d", l2counter)
+				opts := "readonly,\n"
+				if w.epn > 0 {
+					opts += fmt.Sprintf("entries_per_node=%d,\n", w.epn)
+				}
+				w.px.takeLog()
+				_, cerr := fdb.Exec(fmt.Sprintf("create virtual table %s using s3db (\ns3_bucket='%s',\ns3_endpoint='%s',\ns3_prefix='%s',\n%scolumns='%s')",
+					ft, w.bucket, w.px.url, w.prefix, opts, w.colDecl()))
+				if cerr == nil {
+					vf, _ = selAll(fdb, ft)
+				}
+				seen := map[string]bool{}
+				for _, r := range w.px.takeLog() {
+					cl, name := l2class(w.prefix, r.key)
+					if r.kind == "G" && cl == "c" && !seen[name] {
+						seen[name] = true
+						forder = append(forder, name)
+					}
+				}
+				fdb.Close()
+			}
+			return vf, forder
+		}
+		vf0, forder0 := freshRead()
 		w.px.takeLog()
 		var verr sql.NullString
 		err := c.db.QueryRow("select vacuum_error from s3db_vacuum(?, ?)", c.table, fmtTime(op.before)).Scan(&verr)
@@ -657,34 +816,9 @@ func (w *l2world) exec(op *sop, stats map[string]int) bool {
 		out.sb.WriteString(vb)
 		out.s("VA")
 		out.sb.WriteString(va)
-		// fresh reader
-		fdb, ferr := sql.Open("sqlite3", ":memory:")
-		vf := " err"
-		var forder []string
-		if ferr == nil {
-			fdb.SetMaxOpenConns(1)
-			l2counter++
-			ft := fmt.Sprintf("t%d", l2counter)
-			opts := "readonly,\n"
-			if w.epn > 0 {
-				opts += fmt.Sprintf("entries_per_node=%d,\n", w.epn)
-			}
-			w.px.takeLog()
-			_, cerr := fdb.Exec(fmt.Sprintf("create virtual table %s using s3db (\ns3_bucket='%s',\ns3_endpoint='%s',\ns3_prefix='%s',\n%scolumns='%s')",
-				ft, w.bucket, w.px.url, w.prefix, opts, w.colDecl()))
-			if cerr == nil {
-				vf, _ = selAll(fdb, ft)
-			}
-			seen := map[string]bool{}
-			for _, r := range w.px.takeLog() {
-				cl, name := l2class(w.prefix, r.key)
-				if r.kind == "G" && cl == "c" && !seen[name] {
-					seen[name] = true
-					forder = append(forder, name)
-				}
-			}
-			fdb.Close()
-		}
+		vf, forder := freshRead()
+		out.s("VF0")
+		out.sb.WriteString(vf0)
 		out.s("VF")
 		out.sb.WriteString(vf)
 		out.s("RW")
@@ -693,11 +827,23 @@ func (w *l2world) exec(op *sop, stats map[string]int) bool {
 		o.i(op.c)
 		o.z(op.before)
 		w.names(&o, retire)
+		w.names(&o, forder0)
 		w.names(&o, forder)
 		stats["vacuum"]++
 	default:
 		panic("unknown sql op " + op.kind)
 	}
+	if c2 := w.conns[op.c]; c2 != nil && c2.ro && op.kind != "conn" {
+		n := 0
+		for _, r := range w.px.takeLog() {
+			if r.ok && (r.kind == "P" || r.kind == "D") {
+				n++
+			}
+		}
+		w.roMuts += w.lastMuts + n
+		out.s("RO:" + strconv.Itoa(w.lastMuts+n))
+	}
+	w.lastMuts = 0
 	w.ops.sb.WriteString(o.String())
 	w.nops++
 	return true
@@ -722,6 +868,11 @@ type l2profile struct {
 	vacuum     bool
 	allClasses bool
 	fullMask   bool // every UPDATE assigns every non-key column
+	retries    bool // re-issue earlier statements with their original write time
+	connAttrs  bool // read and change s3db_conn
+	changes    bool // s3db_changes between recorded versions
+	roReader   bool // an extra read-only connection that does everything
+	autoTime   bool // some transactions run without an explicit write time
 }
 
 var keyPoolAll = []sval{
@@ -790,13 +941,20 @@ func runL2History(g *gen, prof l2profile, nops int, stats map[string]int) (strin
 		do(&sop{kind: "conn", c: c})
 		do(&sop{kind: "create", c: c})
 	}
+	if prof.roReader {
+		do(&sop{kind: "conn", c: nconn})
+		do(&sop{kind: "create", c: nconn, ro: true})
+	}
 	intx := map[int]bool{}
+	autoTx := map[int]bool{}
 	for step := 0; step < nops; step++ {
 		c := g.r.Intn(nconn)
 		ch := g.r.Intn(100)
 		switch {
 		case ch < 30:
-			do(&sop{kind: "wt", c: c, t: nextT()})
+			if !(intx[c] && autoTx[c]) {
+				do(&sop{kind: "wt", c: c, t: nextT()})
+			}
 			vals := make([]sval, ncols)
 			for i := range vals {
 				vals[i] = g.l2val()
@@ -807,7 +965,9 @@ func runL2History(g *gen, prof l2profile, nops int, stats map[string]int) (strin
 			}
 			do(&sop{kind: "ins", c: c, key: k, vals: vals})
 		case ch < 45:
-			do(&sop{kind: "wt", c: c, t: nextT()})
+			if !(intx[c] && autoTx[c]) {
+				do(&sop{kind: "wt", c: c, t: nextT()})
+			}
 			vals := make([]sval, ncols)
 			mask := make([]bool, ncols)
 			any := false
@@ -826,7 +986,9 @@ func runL2History(g *gen, prof l2profile, nops int, stats map[string]int) (strin
 			}
 			do(&sop{kind: "upd", c: c, key: key(), vals: vals, mask: mask})
 		case ch < 55:
-			do(&sop{kind: "wt", c: c, t: nextT()})
+			if !(intx[c] && autoTx[c]) {
+				do(&sop{kind: "wt", c: c, t: nextT()})
+			}
 			do(&sop{kind: "del", c: c, key: key()})
 		case ch < 80:
 			op := &sop{kind: "sel", c: c, desc: g.r.Intn(2) == 0}
@@ -841,12 +1003,18 @@ func runL2History(g *gen, prof l2profile, nops int, stats map[string]int) (strin
 				}
 				op.cons = append(op.cons, scon{op: []string{"eq", "lt", "le", "ge", "gt"}[g.r.Intn(5)], v: v})
 			}
-			if g.r.Intn(5) == 0 {
+			if g.r.Intn(5) == 0 && !(op.desc && epn > 0) {
+				// (descending scans of multi-level trees may omit rows, finding F-C06-2: a LIMIT
+				// would make the omission impossible to tell from a wrong row)
 				op.limit = 1 + g.r.Intn(3)
 			}
 			do(op)
 		case ch < 86 && prof.tx:
 			if !intx[c] {
+				if prof.autoTime && g.r.Intn(2) == 0 {
+					do(&sop{kind: "wt", c: c, t: 0})
+					autoTx[c] = true
+				}
 				do(&sop{kind: "begin", c: c})
 				intx[c] = true
 			} else {
@@ -856,6 +1024,7 @@ func runL2History(g *gen, prof l2profile, nops int, stats map[string]int) (strin
 				}
 				do(&sop{kind: k, c: c})
 				intx[c] = false
+				autoTx[c] = false
 			}
 		case ch < 92 && nconn > 1:
 			if !intx[c] {
@@ -869,6 +1038,62 @@ func runL2History(g *gen, prof l2profile, nops int, stats map[string]int) (strin
 			}
 		default:
 			do(&sop{kind: "sel", c: c})
+		}
+		if prof.connAttrs && g.r.Intn(5) == 0 {
+			do(&sop{kind: "rdconn", c: c})
+		}
+		if prof.connAttrs && g.r.Intn(15) == 0 {
+			do(&sop{kind: "dl", c: c, t: []int64{0, 4102444800}[g.r.Intn(2)]})
+			do(&sop{kind: "rdconn", c: c})
+		}
+		if prof.changes && !intx[c] && g.r.Intn(4) == 0 {
+			do(&sop{kind: "version", c: c})
+			if len(w.versions) >= 1 {
+				from := w.versions[g.r.Intn(len(w.versions))]
+				to := w.versions[g.r.Intn(len(w.versions))]
+				if g.r.Intn(6) == 0 {
+					from = []string{}
+				}
+				do(&sop{kind: "changes", c: c, from: from, to: to})
+			}
+		}
+		if prof.retries && len(w.writes) > 0 && g.r.Intn(6) == 0 && !autoTx[c] {
+			// retry of an earlier statement, same write time and values, on any writer
+			old := w.writes[g.r.Intn(len(w.writes))]
+			rc := g.r.Intn(nconn)
+			do(&sop{kind: "wt", c: rc, t: old.t})
+			re := *old.op
+			re.c = rc
+			do(&re)
+			stats["retry"]++
+		}
+		if prof.roReader && g.r.Intn(4) == 0 {
+			rc := nconn
+			switch g.r.Intn(9) {
+			case 0:
+				do(&sop{kind: "refresh", c: rc})
+			case 1:
+				do(&sop{kind: "version", c: rc})
+			case 2:
+				do(&sop{kind: "wt", c: rc, t: nextT()})
+				do(&sop{kind: "ins", c: rc, key: key(), vals: nullVals(ncols)})
+			case 3:
+				do(&sop{kind: "wt", c: rc, t: nextT()})
+				do(&sop{kind: "del", c: rc, key: key()})
+			case 4:
+				m := make([]bool, ncols)
+				m[0] = true
+				do(&sop{kind: "wt", c: rc, t: nextT()})
+				do(&sop{kind: "upd", c: rc, key: key(), vals: nullVals(ncols), mask: m})
+			case 5:
+				do(&sop{kind: "vacuum", c: rc, before: []int64{946684800, 4102444800}[g.r.Intn(2)]})
+			case 6:
+				if len(w.versions) > 0 {
+					do(&sop{kind: "changes", c: rc, from: []string{}, to: w.versions[g.r.Intn(len(w.versions))]})
+				}
+			default:
+				do(&sop{kind: "sel", c: rc, desc: g.r.Intn(2) == 0})
+			}
 		}
 	}
 	for c := 0; c < nconn; c++ {
@@ -918,6 +1143,14 @@ func runL2(seed int64, n int, dir string, profName string) error {
 			prof = l2profile{writers: 2 + g.r.Intn(2), tx: g.r.Intn(3) == 0, fullMask: g.r.Intn(2) == 0}
 		case "vacuum":
 			prof = l2profile{writers: 1 + g.r.Intn(2), vacuum: true}
+		case "conn":
+			prof = l2profile{writers: 1 + g.r.Intn(2), tx: true, retries: true, connAttrs: true, autoTime: true, fullMask: true}
+		case "tx":
+			prof = l2profile{writers: 1, native: true, monotone: true, tx: true, connAttrs: true}
+		case "ro":
+			prof = l2profile{writers: 1 + g.r.Intn(2), roReader: true, changes: true, vacuum: g.r.Intn(2) == 0}
+		case "changes":
+			prof = l2profile{writers: 1 + g.r.Intn(2), changes: true, fullMask: true}
 		default:
 			return fmt.Errorf("unknown profile %s", profName)
 		}
@@ -998,10 +1231,23 @@ func replaySQL(r *tr) (string, string) {
 			op.c = r.i()
 			r.names()
 			r.names()
-		case "version":
+		case "version", "rdconn":
 			op.c = r.i()
+		case "dl":
+			op.c, op.t = r.i(), r.z()
+		case "changes":
+			op.c = r.i()
+			op.from = r.names()
+			op.to = r.names()
+			if op.from == nil {
+				op.from = []string{}
+			}
+			if op.to == nil {
+				op.to = []string{}
+			}
 		case "vacuum":
 			op.c, op.before = r.i(), r.z()
+			r.names()
 			r.names()
 			r.names()
 		default:
@@ -1085,4 +1331,12 @@ func (w *l2world) reachability() string {
 		return "ok"
 	}
 	return "missing:" + strconv.Itoa(missing)
+}
+
+func nullVals(n int) []sval {
+	v := make([]sval, n)
+	for i := range v {
+		v[i] = sval{tag: 'N'}
+	}
+	return v
 }
